@@ -22,6 +22,14 @@ Fixpoint dec_vevents (fuel : nat) (l : list Z) : option (list vevent) :=
          | OEngine _ => None
          | o => option_map (cons (VOther o)) (dec_vevents fuel' t) end)
     | 4 :: ms :: t => option_map (cons (VWait ms)) (dec_vevents fuel' t)
+    (* a command (5) or a status frame (6) handled by the other task WHILE tick is between its reads of the shared
+       context and its emission: tick reads each slot once, so this is observably tick; then the other step *)
+    | 5 :: dd :: ae :: rpm :: st :: t =>
+        match estate_of st with
+        | Some s => option_map (fun r => VTick :: VCmd {| e_demand := dd; e_actual := ae; e_rpm := rpm; e_state := s |} :: r) (dec_vevents fuel' t)
+        | None => None end
+    | 6 :: b0 :: b1 :: b2 :: b3 :: b4 :: b5 :: b6 :: b7 :: t =>
+        option_map (fun r => VTick :: VStatus [b0; b1; b2; b3; b4; b5; b6; b7] :: r) (dec_vevents fuel' t)
     | _ => None
     end
   end.
